@@ -49,12 +49,8 @@ void FullHmmTransitionMatrix::setTransitionProbabilities(const Matrix<double>& m
   {
     vSimplex_[i].setFrequencies(mat.row(i));
     ParameterList pls = vSimplex_[i].getParameters();
-    for (size_t j = 0; j < pls.size(); ++j)
-    {
-      Parameter* p = pls[j].clone();
-      p->setName(TextTools::toString(i + 1) + "." + p->getName());
-      pl.addParameter(p);
-    }
+    // The names of the simplex parameters already carry the namespace of the row.
+    pl.addParameters(pls);
   }
 
   matchParametersValues(pl);
